@@ -147,6 +147,10 @@ def build(case):
         spec.tsv['cluster_group.tsv'] = 'cluster_id\tgroup\n' + ''.join('%d\tgood\n' % c for c in ids.tolist()[:3])
     if rng.random() < 0.4:
         spec.extra_files['temp_wh.dat'] = b'\x00' * 64
+    if case['seed'][2] % 5 == 1:
+        # other files of the session whose names begin like the sorter's temporary file: they stay
+        spec.extra_files['temp_wheel_session.dat'] = b'\x01\x02' * 32
+        spec.extra_files['temp_wh2.dat'] = b'\x03' * 16
     if rng.random() < 0.3:
         spec.notes['cluster_probes'] = True
     if spec.raw is not None and rng.random() < 0.3:
@@ -317,6 +321,12 @@ def _run(case, ctx, d, which):
                 new = np.array([lut[int(x)] for x in spec.clusters.tolist()], dtype=spec.clusters.dtype)
                 spec.spike_clusters = new
                 np.save(os.path.join(src, spec._name('spike_clusters.npy')), spec._vec(new))
+                # ... and the probe geometry is replaced by a corrected file of the same size that carries an OLDER modification time
+                # (restored from an archive with its time stamp, as cp -p / rsync -t do); so does the cluster file
+                spec.positions = (spec.positions + np.array([1.0, 2.0])).astype(spec.positions.dtype)
+                np.save(os.path.join(src, spec._name('channel_positions.npy')), spec.positions)
+                for fn_ in ('channel_positions.npy', 'spike_clusters.npy'):
+                    os.utime(os.path.join(src, spec._name(fn_)), (1.0e9, 1.0e9))
                 if spec.notes.get('cluster_probes'):      # (keep the harness-written per-cluster table consistent)
                     np.save(os.path.join(src, 'cluster_probes.npy'), np.zeros(
                         int(new.max()) + 1 if spec.curated else spec.n_templates, dtype=np.int32))
